@@ -361,6 +361,48 @@ def run(chk, w):
                                     if s_ is not None and s_.op == "alloca" and s_.get("param") and s_.get("var"):
                                         tested.add({"dcc_address": "dcc_addr"}.get(s_["var"], s_["var"]))
                                         scanned.setdefault({"dcc_address": "dcc_addr"}.get(s_["var"], s_["var"]), set()).update(_scanned(P, g))
+            # the membership scan written out in the appending function itself (the `exists` helper inlined): a comparison of a key of the new record
+            # with the same key of another record whose match raises the error result
+            inline_guard = False
+            rec_roots = set()
+            ra = f.resolve(rules.strip_casts(f, c.args[1])) if len(c.args) > 1 and c.args[1].get("k") == "inst" else None
+            o_ = c.args[1] if len(c.args) > 1 else {}
+            for _ in range(6):
+                o_ = rules.strip_casts(f, o_)
+                if o_.get("k") == "arg":
+                    rec_roots.add(("arg", o_["i"]))
+                    break
+                x_ = f.resolve(o_) if o_.get("k") == "inst" else None
+                if x_ is None:
+                    break
+                if x_.op == "alloca":
+                    rec_roots.add(("a", x_.id))
+                    break
+                if x_.op in ("getelementptr", "bitcast"):
+                    o_ = x_["base"] if x_.op == "getelementptr" else x_["a"]
+                else:
+                    break
+            if rec_roots:
+                for i_ in f.all_insts():
+                    ops_ = None
+                    if i_.op == "icmp" and i_["pred"] in ("eq", "ne"):
+                        ops_ = (i_["a"], i_["b"], i_["pred"] == "eq")
+                    elif i_.op == "call" and i_.callee in ("strcmp", "g_strcmp0") and len(i_.args) == 2:
+                        ops_ = (i_.args[0], i_.args[1], None)
+                    if ops_ is None:
+                        continue
+                    fa_ = _field_of_value(P, f, ops_[0]) if ops_[0].get("k") == "inst" else None
+                    fb_ = _field_of_value(P, f, ops_[1]) if ops_[1].get("k") == "inst" else None
+                    if not fa_ or not fb_ or not fa_[1] or not fb_[1] or fa_[0] == fb_[0]:
+                        continue
+                    if not (fa_[0] in rec_roots or fb_[0] in rec_roots) or _key_name(fa_[1]) != _key_name(fb_[1]):
+                        continue
+                    k_ = _key_name(fa_[1])
+                    raised = (_raises(f, i_, False, errcell) or _raises_strcmp(f, i_, errcell)) if ops_[2] is None else _raises(f, i_, ops_[2], errcell)
+                    if raised:
+                        tested.add(k_)
+                        scanned.setdefault(k_, set()).update(_scanned(P, f))
+                        inline_guard = True
             missing = [k for k in want if k not in tested]
             # guard: the append lies behind a negative membership test
             def neg_test(fn_, gd_, tr_):
@@ -374,7 +416,7 @@ def run(chk, w):
                             return (cnd["pred"] == "eq") == tr_
                     return False
                 return not pol
-            guarded = rules.guarded_here_or_at_callers(P, f, c, neg_test)
+            guarded = rules.guarded_here_or_at_callers(P, f, c, neg_test) or inline_guard
             if missing:
                 chk.violation("C14-REG", f.name, "%s:%s" % (regname, ",".join(missing)), c.loc(),
                               "%s appends to %s without a membership test on %s (tested: %s): two configured entities can share that key and the configuration is accepted" % (
